@@ -41,6 +41,8 @@ let () =
          | ["bounds"; tb; ts; len; i] -> show (run_bounds (ity tb ts) (z_of_hex len) (z_of_hex i))
          | ["idiv"; tb; ts; a; b] -> show (run_idiv (ity tb ts) (z_of_hex a) (z_of_hex b))
          | ["imod"; tb; ts; a; b] -> show (run_imod (ity tb ts) (z_of_hex a) (z_of_hex b))
+         | ["tdiv"; tb; ts; a; b] -> show (run_tdiv (ity tb ts) (z_of_hex a) (z_of_hex b))
+         | ["tmod"; tb; ts; a; b] -> show (run_tmod (ity tb ts) (z_of_hex a) (z_of_hex b))
          | ["deref"; p] -> show (run_deref (z_of_hex p))
          | ["lib"; op; tb; ts; i; size; impl] ->
              show (run_lib (op_of op) (ity tb ts) (z_of_hex i) (z_of_hex size) (z_of_hex impl))
